@@ -46,6 +46,27 @@ pub fn rewrites(f: &F, ctx: &NetCtx, rich: bool) -> Vec<(String, String)> {
     let mut st = base.clone();
     st.paren_at = Some(usize::MAX);
     out.push(("extra parentheses around every sub-formula".into(), style::render(f, names, &st)));
+    // fewer parentheses: the minimal rendering the grammar allows, and minimal except for one
+    // sub-formula that keeps its canonical parentheses (only texts the reference parser maps back to
+    // the same tree are used, so every variant is meaning-preserving by the documented grammar)
+    let same_tree = |text: &str| -> bool {
+        match crate::refparser::parse_str(text, true) {
+            Ok(t) => crate::formulas::from_t(&t, names).as_ref() == Some(f),
+            Err(_) => false,
+        }
+    };
+    let minimal = style::render_minimal(f, names, &[]);
+    if same_tree(&minimal) {
+        out.push(("minimal parentheses".into(), minimal));
+    } else {
+        out.push(("MACHINERY: minimal rendering does not parse back".into(), "(".into()));
+    }
+    for i in 0..f.size() {
+        let t = style::render_minimal(f, names, &[i]);
+        if same_tree(&t) {
+            out.push((format!("minimal parentheses except sub-formula {i}"), t));
+        }
+    }
     // long spellings
     let nh = style::count_hybrid(f);
     if nh > 0 {
@@ -137,6 +158,27 @@ pub fn run(tier: &str) -> Result<Report, String> {
         let mut g = Gen::new(Alphabet::all_ops(ctx.nprops(), 3));
         let mut fs = g.closed_up_to(m);
         fs.extend(templates(&ctx.user, true, pool));
+        // a quantifier whose body starts with a parenthesised quantified group that is not last:
+        // Q1{x}: ((Q2{y}: A) op B) — the shape where dropping or adding parentheses moves a scope
+        {
+            let qs: Vec<&str> = if rich { vec!["!", "3", "V"] } else { vec!["!", "3"] };
+            let ops: Vec<&str> = if rich { vec!["&", "|", "^", "=>", "<=>", "EU", "AU", "EW", "AW"] } else { vec!["=>", "^", "EU", "&"] };
+            for q1 in &qs {
+                for q2 in &qs {
+                    for op in &ops {
+                        for a in ["{y}", "AX {y}", "{y} & a"] {
+                            for b in ["a", "{x}", "AX {x}"] {
+                                fs.push(crate::formulas::f(&format!("{q1}{{x}}: (({q2}{{y}}: {a}) {op} {b})"), &ctx.user));
+                                if rich {
+                                    fs.push(crate::formulas::f(&format!("{q1}{{x}}: ({b} {op} ({q2}{{y}}: {a}))"), &ctx.user));
+                                }
+                            }
+                        }
+                    }
+                }
+            }
+            fs.extend(crate::formulas::duplicate_templates(ctx.nprops(), 3, true, false).into_iter().step_by(if rich { 1 } else { 4 }));
+        }
         let mut ge = Gen::new(Alphabet::extended(1, 2, 1, 1));
         fs.extend(ge.closed_up_to(3).into_iter().filter(|f| f.uses_wild_or_dom()));
         let res: Vec<(u64, u64, Option<Violation>)> = fs
@@ -174,7 +216,7 @@ pub fn run(tier: &str) -> Result<Report, String> {
     }
     rep.evaluations = total_rewrites;
     rep.distinct_nontrivial = distinct_rewrites;
-    rep.rule = format!("for every closed plain formula with <= {m} nodes, every template formula and every extended formula with <= 3 nodes, on {which:?}: all scope-respecting assignments of the names {POOL:?} to its binders (consistent renaming incl. permutations of the internal names x, xx, xxx), whitespace patterns (none where legal, double, tab, newline, NBSP, mixed; everywhere and at each single token boundary), 1-2 redundant parentheses around each sub-formula and around all, long spellings of each/all hybrid operators, constant spellings; the rewritten text must evaluate (model_check_formula / model_check_extended_formula_dirty) to the same set as the canonical text. distinct_nontrivial = number of rewritten texts that differ from the canonical text and from each other (per formula and network), counted with a hash set; evaluations additionally counts the canonical text");
+    rep.rule = format!("for every closed plain formula with <= {m} nodes, every template formula, the family Q1{{x}}: ((Q2{{y}}: A) op B), duplicate templates and every extended formula with <= 3 nodes, on {which:?}: all scope-respecting assignments of the names {POOL:?} to its binders (consistent renaming incl. permutations of the internal names x, xx, xxx), whitespace patterns (none where legal, double, tab, newline, NBSP, mixed; everywhere and at each single token boundary), 1-2 redundant parentheses around each sub-formula and around all, the minimal-parentheses rendering and the minimal rendering with one sub-formula keeping its parentheses, long spellings of each/all hybrid operators, constant spellings; the rewritten text must evaluate (model_check_formula / model_check_extended_formula_dirty) to the same set as the canonical text. distinct_nontrivial = number of rewritten texts that differ from the canonical text and from each other (per formula and network), counted with a hash set; evaluations additionally counts the canonical text");
     rep.assumptions.push("the rewrite generator only produces meaning-preserving variants by construction (consistent renaming respecting scopes, whitespace only between tokens, balanced extra parentheses)".into());
     Ok(rep)
 }
